@@ -275,6 +275,12 @@ def install(it):
         return it_.call(fn, list(a), k, ctx)
     reg("call_real", call_real)
 
+    def loop_invariant(it_, ctx, qualname, ordinal, fn, name=None, havoc=()):
+        """inductive invariant for the ordinal-th loop (source order) of a repo function"""
+        ctx.loop_invariants.setdefault(qualname, {})[ordinal] = dict(
+            fn=fn, name=name or ("%s#loop%d" % (qualname.rsplit(".", 1)[-1], ordinal)), havoc=list(havoc))
+    reg("loop_invariant", loop_invariant)
+
     def harness(it_, ctx, *a, **k):
         def deco(f):
             f.attrs["harness"] = dict(k)
